@@ -70,6 +70,8 @@ def expr_kind(e, field_kinds, cls, depth=0, local=None) -> str | None:
         if isinstance(f, ast.Attribute):
             if f.attr == "numpy":
                 return "ndarray"
+            if f.attr in ("new_tensor", "new_zeros", "new_ones", "new_empty", "new_full"):
+                return "tensor"  # (methods of torch tensors only: numpy arrays have none of them)
             if f.attr in ("to", "cpu", "detach", "clone", "reshape", "astype", "copy", "float", "double", "contiguous", "squeeze", "unsqueeze", "view"):
                 return expr_kind(f.value, field_kinds, cls, depth + 1, local)
             if isinstance(f.value, ast.Name) and f.value.id == "self":
@@ -553,7 +555,7 @@ class _ClsView:
         return getattr(self._cls, name)
 
 
-def flatten_state_object(index, cls):
+def flatten_state_object(index, cls, _no_config=False):
     """`self.S = D(args)` in BOTH __init__ and reset(), D a small class of the same module (a dataclass, or a class with a plain __init__) holding the mutable
     fields: the methods are read as if the fields of S were attributes of the weighting itself — `self.S.f` and `alias.f` (after `alias = self.S`) become
     `self.f`, and the statement `self.S = D(args)` becomes the field initialisations D performs. Returns a view of the class, or the class itself."""
@@ -571,6 +573,22 @@ def flatten_state_object(index, cls):
 
     hi, hr = holder_stmt(ini.node), holder_stmt(rst.node)
     cand = [(a, b) for a in hi for b in hr if self_attr(a.targets[0]) == self_attr(b.targets[0]) and a.value.func.id == b.value.func.id]
+    if len(cand) != 1 and not _no_config:
+        # a CONFIGURATION object: `self.cfg = C(...)` in __init__ only, never re-assigned and none of its fields ever stored — its fields are read as
+        # attributes of the weighting set by the constructor (properties that merely forward `self.cfg.x` as `self.x` disappear)
+        def frozen(a):
+            S_ = self_attr(a.targets[0])
+            for f_ in cls.methods.values():
+                for st_ in ast.walk(f_.node):
+                    if isinstance(st_, (ast.Assign, ast.AugAssign, ast.AnnAssign)):
+                        for t_ in (st_.targets if isinstance(st_, ast.Assign) else [st_.target]):
+                            if st_ is not a and (self_attr(t_) == S_ or (isinstance(t_, ast.Attribute) and self_attr(t_.value) == S_)):
+                                return False
+            return True
+
+        cfgs = [a for a in hi if not any(self_attr(a.targets[0]) == self_attr(b.targets[0]) for b in hr) and frozen(a)]
+        if len(cfgs) == 1:
+            cand = [(cfgs[0], None)]
     if len(cand) != 1:
         return cls
     S = self_attr(cand[0][0].targets[0])
@@ -666,7 +684,63 @@ def flatten_state_object(index, cls):
     methods = {}
     for mname, f in cls.methods.items():
         methods[mname] = dataclasses.replace(f, node=rewrite(f.node)) if dataclasses.is_dataclass(f) else f
-    return _ClsView(cls, methods)
+    for mname, f in list(methods.items()):
+        body = [s_ for s_ in f.node.body if not (isinstance(s_, ast.Expr) and isinstance(s_.value, ast.Constant))]
+        if any("property" in ast.unparse(d) for d in f.node.decorator_list) and len(body) == 1 and isinstance(body[0], ast.Return) and self_attr(body[0].value) == mname:
+            del methods[mname]  # `@property def x(self): return self.cfg.x`, now `return self.x`: the field itself
+    view = _ClsView(cls, methods)
+    if cand[0][1] is None:
+        return flatten_state_object(index, view, _no_config=True) if isinstance(view, _ClsView) else view  # (a state object may sit next to the configuration object)
+    return view
+
+
+def _inline_field_aliases(cls):
+    """Locals bound once to `self.X`, X an attribute that no method but __init__ stores: every load of the local is a load of the attribute."""
+    import copy
+    import dataclasses
+
+    stored_outside = {a for m, f in cls.methods.items() if m != "__init__" for a in stores(f.node)}
+    methods, changed = {}, False
+    for mname, f in cls.methods.items():
+        if not dataclasses.is_dataclass(f) or mname == "__init__":
+            methods[mname] = f
+            continue
+        binds = {}
+        for a in ast.walk(f.node):
+            if isinstance(a, ast.Name) and isinstance(a.ctx, ast.Store):
+                binds[a.id] = binds.get(a.id, 0) + 1
+        alias = {a.targets[0].id: a for a in ast.walk(f.node) if isinstance(a, ast.Assign) and len(a.targets) == 1 and isinstance(a.targets[0], ast.Name)
+                 and self_attr(a.value) and self_attr(a.value) not in stored_outside and binds.get(a.targets[0].id) == 1
+                 and a.targets[0].id not in {p.arg for p in f.node.args.args}}
+        if not alias:
+            methods[mname] = f
+            continue
+        node = copy.deepcopy(f.node)
+        drop = {norm_text(a) for a in alias.values()}
+
+        class R(ast.NodeTransformer):
+            def visit_Name(self, n):
+                if isinstance(n.ctx, ast.Load) and n.id in alias:
+                    return ast.copy_location(copy.deepcopy(alias[n.id].value), n)
+                return n
+
+        def strip(stmts):
+            out = []
+            for st in stmts:
+                if isinstance(st, ast.Assign) and norm_text(st) in drop:
+                    continue
+                for fld in ("body", "orelse", "finalbody"):
+                    blk = getattr(st, fld, None)
+                    if isinstance(blk, list) and blk and isinstance(blk[0], ast.stmt):
+                        setattr(st, fld, strip(blk) or [ast.Pass()])
+                out.append(st)
+            return out
+
+        node.body = strip(node.body)
+        node = ast.fix_missing_locations(R().visit(node))
+        methods[mname] = dataclasses.replace(f, node=node)
+        changed = True
+    return _ClsView(cls, methods) if changed else cls
 
 
 def check(index, ctx):
@@ -682,6 +756,7 @@ def check(index, ctx):
     if cls is None or outer is None:
         raise AnalysisError("anchor vanished: NashMTL / _NashMTLWeighting")
     cls = flatten_state_object(index, cls)  # mutable fields kept in a helper object that __init__ and reset() both re-create are read as fields of the weighting
+    cls = _inline_field_aliases(cls)  # `max_norm = self.max_norm` (a field only the constructor writes) read in place
     need = {}
     for mname in ("__init__", "reset", "forward"):
         r = cls.lookup(mname)
